@@ -686,7 +686,7 @@ func (w *world) exec(o hop) {
 		if o.n < 0 {
 			var huge uint64 = 1<<63 + 7
 			table.SetCsCapacity(int(huge))
-			w.line("op cap 100000") // unlimited for every universe of the harness
+			w.line("op cap -1") // any negative int: SetCsCapacity treats it as unlimited
 		} else {
 			table.SetCsCapacity(o.n)
 			w.line("op cap %d", o.n)
